@@ -30,7 +30,8 @@ ASSUMPTIONS = ['same kernel assumptions as C03',
 METHODS = ['GET', 'POST', 'OPTIONS', 'PUT', 'DELETE', 'HEAD', 'PATCH']
 EIOS = ['absent', '4', '3', 'empty', '44', 'repeated']
 TRANSPORTS = ['absent', 'polling', 'websocket', 'bogus', 'Polling', 'poll', 'socket']
-SIDS = ['absent', 'live-polling', 'live-upgraded', 'mid-upgrade', 'closed', 'unknown', 'rejected']
+SIDS = ['absent', 'live-polling', 'live-upgraded', 'mid-upgrade', 'closed', 'unknown', 'rejected',
+        'empty']     # 'empty': the parameter is there without a value (sid=) - names no session
 KINDS = ['http', 'ws', 'ws-connlist', 'ws-list', 'ws-noconn']
 # a WebSocket upgrade whose Connection header is a token list (what Firefox sends)
 CONNLIST = [('Upgrade', 'websocket'), ('Connection', 'keep-alive, Upgrade')]
@@ -55,6 +56,10 @@ def all_cells():
 def feasible(c):
     impl, cfg, sidk, method, kind, eio, tr, j = c
     if kind != 'http' and method != 'GET':
+        return False
+    if sidk == 'empty' and (method not in ('GET', 'POST') or kind not in ('http', 'ws') or
+                            tr not in ('absent', 'polling', 'websocket') or j != 'absent' or
+                            cfg.endswith('-str')):
         return False
     if kind in ('ws-list', 'ws-noconn', 'ws-connlist') and (
             eio not in ('4', 'absent') or j not in ('absent', 'x') or cfg.endswith('-str')):
@@ -81,6 +86,10 @@ def ref_admission(c):
             return ('refuse', set(a[1]) | set(b[1]), sorted(set(a[2]) | set(b[2])))
         return ('open', 'upgrade headers that are not exactly those of a websocket upgrade')
     impl, cfg, sidk, method, kind, eio, tr, j = c
+    if sidk == 'empty':
+        # a sid parameter without a value names no session: the request is judged like one
+        # without the parameter
+        sidk = 'absent'
     allowed_tr = {'both': ['polling', 'websocket'], 'polling': ['polling'],
                   'websocket': ['websocket'], 'polling-str': ['polling'],
                   'websocket-str': ['websocket']}[cfg]
@@ -169,6 +178,8 @@ def setup_state(ex, c):
     ex.do({'op': 'open', 'transport': first, 'autopong': False, 'autopoll': False})   # bystander
     if sidk == 'absent':
         return None, None
+    if sidk == 'empty':
+        return None, ''
     if sidk == 'unknown':
         return None, 'AAAAnosuchsessionAAAA'
     if sidk == 'rejected':
@@ -241,7 +252,8 @@ def check_cell(c, ctx=None):
             status, done = r.status, r.done
         # (an ASGI websocket scope that is answered as a polling open gets 'websocket.accept' from
         # the driver without any transport being used: open cell, see ref_admission)
-        if (kind in ODD or (kind != 'http' and sidk != 'absent')) and cfg.startswith('polling') and (
+        if (kind in ODD or (kind != 'http' and sidk not in ('absent', 'empty'))) and \
+                cfg.startswith('polling') and (
                 getattr(r, 'accepted', False) or getattr(r, 'ws_attempt', False)):
             raise V(impl, 'inadmissible-websocket-accepted',
                     'WS|sid=%s|transport-not-allowed|%s' % (sidk, kind),
